@@ -83,7 +83,10 @@ JBPeekOut(x, atHead)   == IF x.buf = {} THEN {Err("underrun")}
 JBPeekAtSeqOut(x, n)   == PQFindOut(x.buf, n)
 JBSetHeadStep(x, n)    == [x EXCEPT !.head = n]
 JBPlayoutHead(x)       == x.head
-JBClearStep(c, x, rst) == IF rst THEN [x EXCEPT !.buf = {}, !.last = 0, !.st = "B", !.min = c.defmin]
+\* Clear(true) also forgets the playout position: the next packet pushed starts a new playout (C11/C12: a stale head
+\* named a packet that was just dropped; repaired in the code, see KNOWN_FINDINGS.jsonl "fixed:" 5635bb5)
+JBClearStep(c, x, rst) == IF rst THEN [x EXCEPT !.buf = {}, !.last = 0, !.st = "B", !.min = c.defmin,
+                                                 !.head = 0, !.ready = FALSE]
                           ELSE [x EXCEPT !.buf = {}]
 
 \* ---- deviation predicates over (pre-state, action); names are the tags usable in KNOWN_FINDINGS.jsonl ----
